@@ -192,10 +192,10 @@ def run_unit(ck, unit):
                 if z3.is_true(model.eval(state['same'][(j, i)], model_completion=True)):
                     rep = j
                     break
-            markers[i] = str((2000 if not z3.is_true(model.eval(im[i], model_completion=True)) else 1000) + rep)
-            if not z3.is_true(model.eval(im[i], model_completion=True)):
+            markers[i] = str((2000 if not z3.is_true(model.eval(im[i], model_completion=True)) and not pad else 1000) + rep)
+            if not z3.is_true(model.eval(im[i], model_completion=True)) and not pad:
                 return '- %d' % (2000 + rep)
-            if z3.is_true(model.eval(state['is_empty'][i], model_completion=True)):
+            if z3.is_true(model.eval(state['is_empty'][i], model_completion=True)) and not pad:
                 markers[i] = '{}'
                 return '- {}'
             extra = ('\n  pad: \'%s\'' % pad) if pad else ''
@@ -272,17 +272,21 @@ def run_unit(ck, unit):
                     return ('violation', path, '%s: the validation error names example %d which does not fail: %r' % (label, i, text[:200]))
         # the executor renders an example as an opaque text; anything the real code does with that text (cutting,
         # re-encoding) only shows on real, long, non-ASCII examples: the same witness again with a padded extra field
+        # (in the padded replay every example is a non-empty mapping; what it should do follows from `matches` alone)
+        pfails = [not z3.is_true(model.eval(ma[i], model_completion=True)) for i in range(p)] + \
+                 [z3.is_true(model.eval(ma[i], model_completion=True)) for i in range(p, total)]
+        want_pad = not any(pfails)
         for padtxt in ('\u00e9' * 200, 'a' + '\u00e9' * 200):
             yaml2, q, q2, path2 = replay(model, 'spec', pad=padtxt)
             for qq in (q, q2):
                 if 'panic' in qq:
                     return ('violation', path2, '%s: validate() panics on a long example: %s' % (label, qq['panic'][:160]))
-                if (qq.get('result') is True) != want_ok:
-                    return ('violation', path2, '%s: validate() says %r on long examples, examples say %s' % (label, qq, want_ok))
-            if not want_ok:
+                if (qq.get('result') is True) != want_pad:
+                    return ('violation', path2, '%s: validate() says %r on long examples, examples say %s' % (label, qq, want_pad))
+            if not want_pad:
                 text = q.get('error', '')
                 for i in range(total):
-                    if z3.is_true(model.eval(fails[i], model_completion=True)) and markers[i] not in text:
+                    if pfails[i] and markers[i] not in text:
                         return ('violation', path2, '%s: the validation error does not name failing (long) example %d: %r' % (label, i, text[:200]))
         return ('spurious', 'native validate agrees on the outcome; message contents are decided on the MIR only (%s)' % path)
     ck.obligation(label + ':ok <=> all examples right; errors name the failing examples', uni,
